@@ -282,6 +282,32 @@ CLAIMED = {
              "without separator).",
         technique="Lean 4 proof (string/list induction: split over joined text, last-assignment-wins fold; dictionary algebra; reuse of the C03 refinement) + exhaustive and random differential correspondence + independent cascade evaluator as oracle",
         ref="DESIGN.md §4 C14"),
+    "C10": dict(
+        text="Lean 4 theorems about the document model in which every way SVG.parse can end is explicit (Status: running, returned by "
+             "the early 'return s', raised e). For every document: (1) use expansion terminates within a nesting depth of (number of "
+             "ids)+1 whatever the reference graph - missing ids, self references, ancestors, mutual cycles of any length (budget "
+             "invariant: the ids being expanded are distinct ids of the table; pigeonhole) - so the recursion-limit event never occurs; "
+             "(2) if parseDoc ends with an exception, it was raised by the start event of some element or is the recursion limit: "
+             "the loop's stack discipline, inheritance copy, cascade, use inlining and end events add no failure of their own (no pop "
+             "from an empty stack; via the C03 refinement); (3) a start event raises only what the transform parser reports for the "
+             "inherited (caller's) transform of a container, or the marker of a length the library keeps symbolic: an element's own "
+             "unparsable transform is dropped and the inherited one kept; (4) a zero-sized nested svg keeps the parse running, marks "
+             "only its own scope display:none and emits nothing; (5) sibling frame: for any element e among its siblings whose "
+             "rendering keeps the parse running and the rule table unchanged, render(pre ++ e :: post) = render pre ++ render e ++ X "
+             "and render(pre ++ post) = render pre ++ X with the same X. The value parsers' totality on arbitrary text (transform, "
+             "colour, length, points, viewBox, opacity, path data) is tied to the code by running the character-level Lean model on "
+             "the faulted documents: exhaustive grid of 14 element kinds x all fault values of 21 attributes, random documents with 1-3 "
+             "faults and retargeted use references, hand-made cycles; exception/no exception and the shapes outside the faulty "
+             "subtrees are compared; on the implementation: no exception, and shapes outside the faulty subtrees equal those of the "
+             "document with the faulty elements removed.",
+        note="Partial: 'no value parser raises anything for any text' is decided by the correspondence on the fault lists, not by a "
+             "theorem over all strings (C09 proves it for path data, C04 for transform token lists); inside a faulty element's subtree "
+             "only presence and order are compared. em/ex/vw lengths and percentages in transform functions are valid values the "
+             "library keeps symbolic (a later reify may raise ValueError): outside the fault model. A root element with display:none "
+             "makes parse return None. Six fix: commits (too few transform arguments, cyclic use, unparsable transform attribute, "
+             "rgb()/opacity overflow, nested zero-size svg).",
+        technique="Lean 4 proof (well-founded mutual induction with a budget invariant + pigeonhole for termination; case analysis of the start event; append lemma for the sibling frame; reuse of the C03 refinement) + exhaustive fault x element differential correspondence + removal relation as oracle",
+        ref="DESIGN.md §4 C10"),
 }
 ALL = ["C%02d" % i for i in range(1, 21)]
 
